@@ -5,8 +5,8 @@ import (
 	"go/constant"
 	"go/token"
 	"go/types"
-	"strings"
 	"math"
+	"strings"
 
 	"golang.org/x/tools/go/ssa"
 )
@@ -1087,7 +1087,9 @@ func lenLowerBound(fn *ssa.Function, x ssa.Value, b *ssa.BasicBlock, d int) int6
 				}
 				k, isK := constInt(cmp.Y)
 				onTrue := pb.Succs[0] == blk
-				if !isK || !(cmp.Op == token.EQL && onTrue == val) {
+				// the edge carries `len == k`: the true edge of ==, or the false edge of !=
+				holds := onTrue == val
+				if !isK || !(cmp.Op == token.EQL && holds || cmp.Op == token.NEQ && !holds) {
 					all = false
 					break
 				}
